@@ -110,6 +110,16 @@ def compare(res, case, algo, policy, impl, real, model):
 
 def run_code(ctx, res, quick=150, thorough=1500):
     """Deep tie of the code-structured model; call from c03.run after the main stream."""
+    # The tie looks INSIDE the implementation (`_compute_gain_sets`, `_compute_lca_sets`, `_compute_uspfs_table`
+    # and the table's layout).  Refactored away -> unavailable: a note, not an alarm (the public-API
+    # correspondence of the C03 check still decides).
+    try:
+        real_table({"S": [[], []], "O": [{"s": "0", "f": [0]}, {"s": "1", "f": [0]}],
+                    "costs": {"spe": 0, "dup": 1, "hgt": 1, "floss": 1, "sloss": 1}}, "superdtl", "all")
+    except Exception as e:  # noqa
+        res.notes.append(f"table-level tie (c03_code) unavailable: internals changed ({type(e).__name__}: {str(e)[:120]})")
+        res.dist["code-table tie unavailable"] += 1
+        return
     n = ctx.budget(quick, thorough)
     cases = [solvers.unordered_case(ctx, ctx.rng, 5, 4, 4) for _ in range(n)]
     items = [(c, a, p) for c in cases for a in ALGOS for p in ("all", "any")]
